@@ -244,6 +244,39 @@ fn big_smx(declared: i32, backing: usize) -> Vec<u8> {
     b
 }
 
+/// the same file behind `k` bytes of something else (a container header, a reader that was seeked): parsing from there gives
+/// the same structure, writing after `k` bytes already written gives the same bytes — nothing may depend on the absolute
+/// position of the stream
+fn offset_case(ctx: &mut Ctx, fmt: &str, bytes: &[u8], k: usize) {
+    let op = format!("{}.at {} {}", fmt, k, hex(bytes));
+    ctx.oracle_eval(&format!("{}-offset", fmt));
+    let mut shifted = vec![0xA5u8; k];
+    shifted.extend_from_slice(bytes);
+    let (at0, atk, wrk): (Option<String>, Option<String>, Option<Vec<u8>>) = if fmt == "pth" {
+        let a = read_pth(bytes).and_then(|r| r.ok()).map(|(p, _)| pth_tok(&p));
+        let sh = shifted.clone();
+        let b = guard(move || { let mut c = Cursor::new(&sh); c.set_position(k as u64); Pth::read(&mut c).ok().map(|p| pth_tok(&p)) }).flatten();
+        let by = bytes.to_vec();
+        let w = guard(move || { let p = Pth::read(&mut Cursor::new(&by)).ok()?; let mut c = Cursor::new(vec![0xA5u8; k]); c.set_position(k as u64); p.write(&mut c).ok()?; Some(c.into_inner()[k..].to_vec()) }).flatten();
+        (a, b, w)
+    } else {
+        let a = read_smx(bytes).and_then(|r| r.ok()).map(|(p, _)| smx_tok(&p));
+        let sh = shifted.clone();
+        let b = guard(move || { let mut c = Cursor::new(&sh); c.set_position(k as u64); Smx::read(&mut c).ok().map(|p| smx_tok(&p)) }).flatten();
+        let by = bytes.to_vec();
+        let w = guard(move || { let p = Smx::read(&mut Cursor::new(&by)).ok()?; let mut c = Cursor::new(vec![0xA5u8; k]); c.set_position(k as u64); p.write(&mut c).ok()?; Some(c.into_inner()[k..].to_vec()) }).flatten();
+        (a, b, w)
+    };
+    if at0.is_some() && atk != at0 {
+        ctx.violation(&format!("c17/{}/position-dependent/read", fmt), "the same file parses differently (or not at all) when it does not start at position 0 of the reader", &truncate(&op, 300), "the same structure", if atk.is_some() { "a different structure" } else { "error" });
+    }
+    if at0.is_some() && wrk.as_deref() != Some(bytes) && read_pth(bytes).is_some() {
+        // only for canonical inputs (the writer reproduces them at position 0)
+        let canon = if fmt == "pth" { read_pth(bytes).and_then(|r| r.ok()).and_then(|(p, _)| write_pth(&p)).and_then(|r| r.ok()).as_deref() == Some(bytes) } else { read_smx(bytes).and_then(|r| r.ok()).and_then(|(p, _)| write_smx(&p)).and_then(|r| r.ok()).as_deref() == Some(bytes) };
+        if canon { ctx.violation(&format!("c17/{}/position-dependent/write", fmt), "the same structure is written differently when the writer is not at position 0", &truncate(&op, 300), "the same bytes", "different"); }
+    }
+}
+
 /// counts around the 16-bit boundary, and a negative count with enough bytes behind it to satisfy any narrowed reading
 fn big_case(ctx: &mut Ctx, declared: i32, backing: usize) {
     let b = big_smx(declared, backing);
@@ -297,6 +330,8 @@ fn run_inner(ctx: &mut Ctx) {
             let w: Vec<&str> = l.split_whitespace().collect();
             match w.as_slice() {
                 ["smx.big", d, n] => big_case(ctx, d.parse().unwrap_or(0), n.parse().unwrap_or(0)),
+                ["smx.at", k, h] => offset_case(ctx, "smx", &unhex(h), k.parse().unwrap_or(0)),
+                ["pth.at", k, h] => offset_case(ctx, "pth", &unhex(h), k.parse().unwrap_or(0)),
                 ["pth.big", d, n] => big_pth_case(ctx, d.parse().unwrap_or(0), n.parse().unwrap_or(0)),
                 ["pth", h] => pth_case(ctx, &unhex(h), "replay", true),
                 ["smx", h] => smx_case(ctx, &unhex(h), "replay", true),
@@ -352,6 +387,13 @@ fn run_inner(ctx: &mut Ctx) {
             let mut sb2 = write_smx(&s).unwrap().unwrap();
             if sb2.len() > 84 { sb2[80..84].copy_from_slice(&count.to_le_bytes()); smx_case(ctx, &sb2, "hostile-count", true); }
         }
+    }
+    // files that do not start at position 0 of their reader / writer
+    for i in 0..(if quick { 4 } else { 40 }) {
+        let s = gen_smx(&mut ctx.rng, 1 + i % 3, i % 2);
+        if let Some(Ok(b)) = write_smx(&s) { for k in [1usize, 2, 3, 4, 5, 7] { offset_case(ctx, "smx", &b, k); } }
+        let p = gen_pth(&mut ctx.rng, 1 + i % 4);
+        if let Some(Ok(b)) = write_pth(&p) { for k in [1usize, 2, 3, 5] { offset_case(ctx, "pth", &b, k); } }
     }
     // element counts around the 16-bit boundary (a count narrowed on its way from the file to the reader shows here),
     // a declared count larger than what follows, and negative counts backed by plenty of bytes
